@@ -406,7 +406,7 @@ sp_dgemv(char *trans, double alpha, SuperMatrix *A, double *x,
 
     /* Set  LENX  and  LENY, the lengths of the vectors x and y, and set 
        up the start points in  X  and  Y. */
-    if (strncmp(trans, "N", 1)==0) {
+    if ( notran ) {
 	lenx = A->ncol;
 	leny = A->nrow;
     } else {
